@@ -127,6 +127,12 @@ EXPLORE = [
 ]
 
 
+def assertion_of(text):
+    """the MASSERT that fired, if any: 'ASSERTION FAILED: (ThreadPool.cpp:144) ThreadPoolThread::...: _currentClient isn't NULL!'"""
+    m = re.search(r"ASSERTION FAILED: \(([^):]*/)?([^):/]+):(\d+)\) ([^\n]*)", text or "")
+    return ("ASSERTION FAILED (%s:%s) %s" % (m.group(2), m.group(3), m.group(4).strip()))[:200] if m else None
+
+
 def thread_hooks_present():
     try:
         return "MUSCLE_VERIF_THREAD_START" in open(os.path.join(vlib.REPO, "system", "Thread.cpp")).read()
@@ -184,6 +190,7 @@ class CHECK(vlib.Check):
                 "the owner of a client does not call SendMessageToThreadPool()/SetThreadPool() on it while a SetThreadPool() on that client is in progress (IThreadPoolClient::_threadPool is unsynchronised; documented requirement): in the model those labels are not enabled then",
                 "handlers return (liveness is proved in its safety form: a transition that lowers a measure is enabled and nobody can disable it)",
                 "Shutdown() drops whatever is still queued and wakes blocked un-registrations: 'exactly once' and 'unregister waits' are stated for runs in which Shutdown()'s final section has not run (the prefix/at-most-once/order and seriality parts hold unconditionally)",
+                "Shutdown() is private: it runs only in ~ThreadPool() and in FlushCachedObjects() (the SetupSystem destructor). Calling into a pool or its clients concurrently with, or after, either of them is outside the documented contract (an object being destroyed / muscle after SetupSystem); the two behaviours seen there -- a Send/SetThreadPool whose unsynchronised _threadPool test preceded Shutdown's final section, and a dead pool that still registers clients and accepts Messages it will never dispatch, so that an unregister on it would block for ever -- are modelled (LSubmitStale, the stale form of LUnregBegin, ex_dead_pool_accepts_and_strands) and were judged NOT to violate C19's statement: inside the contract un-registration returns only after everything was handled and Shutdown() terminates (C19_unregister_waits, C19_shutdown_no_deadlock)",
                 "memory allocation and thread creation do not fail; _threadIDCounter does not wrap"]
     rule = ("stage 1: each case = a pool size 1..4 (below and above the number of clients) and a script over up to 5 clients of "
             "register / submit / let-the-running-handler-return / unregister / Shutdown; handlers are gated by the harness so the "
@@ -228,25 +235,18 @@ class CHECK(vlib.Check):
             nxt = (max(done) + 1) if done else off
             if nxt >= len(cases):
                 break
-            crashes.append({"k": nxt, "what": ("timeout/hang" if rc == 124 else vlib.san_summary(err)), "stderr": err[-2000:]})
+            what = assertion_of(err) or assertion_of("\n".join(lines[-40:])) or ("timeout/hang" if rc == 124 else vlib.san_summary(err))
+            crashes.append({"k": nxt, "what": what, "stderr": err[-2500:]})
             off = nxt + 1
             restarts += 1
         return out, crashes
 
-    def extra_stage(self, ctx):
-        cases = [c for c in ctx["cases"] if c.startswith("sched,")]
-        cov = ctx.setdefault("extra_coverage", {})
-        if not cases:
-            cov["stage2_scheduler"] = ("not run: system/Thread.cpp of this tree has no MUSCLE_VERIF_HOOKS yield points yet "
-                                       "(patch by build-C11 pending); the stage runs automatically once they are there")
-            return
-        if not getattr(self, "_sched", None):
-            ctx["failures"].append({"kind": "build", "signature": "sched harness not built", "case": cases[0], "detail": ""})
-            return
-        out, crashes = self.run_sched_harness(cases, 1500 if ctx["tier"] == "quick" else 6000)
+    def eval_sched(self, cases, timeout):
+        """run scheduled cases on the real pool, let the model replay the observed events; -> (failures, stats)"""
+        failures = []
+        out, crashes = self.run_sched_harness(cases, timeout)
         for c in crashes:
-            ctx["failures"].append({"kind": "crash", "signature": "crash: " + c["what"], "case": cases[c["k"]], "detail": c})
-        # the model replays the observed events
+            failures.append({"kind": "crash", "signature": "crash: " + c["what"], "case": cases[c["k"]], "detail": c})
         rin, n_ev, n_dec = [], 0, 0
         for k, c in enumerate(cases):
             evs = [l.split(" ", 2)[2].split(" ", 1)[0] for l in out.get(k, []) if l.startswith("EV ")]
@@ -268,19 +268,80 @@ class CHECK(vlib.Check):
             exact = re.sub(r"sch=[^|]*", "sch=" + (sch[0].replace(",", ".") if sch else ""), c, count=1)   # replays exactly
             for l in h:
                 if l.startswith("ORACLE"):
-                    ctx["failures"].append({"kind": "oracle", "signature": l, "case": exact, "detail": {"oracle": l, "impl": h[-12:]}})
+                    failures.append({"kind": "oracle", "signature": l, "case": exact, "detail": {"oracle": l, "impl": h[-12:]}})
+            if ",fine=1" in c.split("|", 1)[0]:
+                continue      # fine-grained decisions: events of different threads overlap inside critical sections; oracle and crashes only
             hh = [re.sub(r"^END \S+ ?", "END ", l).rstrip() for l in h if l.startswith("EV ") or l.startswith("END ")]
             mm = [l.rstrip() for l in mod.get(k, []) if l.startswith("EV ") or l.startswith("END ")]
             for l in mod.get(k, []):
                 if l.startswith("ORACLE"):
-                    ctx["failures"].append({"kind": "oracle", "signature": l, "case": exact, "detail": {"oracle": l}})
+                    failures.append({"kind": "oracle", "signature": l, "case": exact, "detail": {"oracle": l}})
             if hh != mm:
                 first = next((i for i in range(min(len(hh), len(mm))) if hh[i] != mm[i]), min(len(hh), len(mm)))
-                ctx["failures"].append({"kind": "correspondence", "signature": "model/impl disagree (scheduled run: trace not accepted or state differs)",
-                                        "case": exact, "detail": {"first_difference_at": first,
-                                                                   "impl": hh[max(0, first - 2):first + 3], "model": mm[max(0, first - 2):first + 3]}})
-        cov["stage2_scheduler"] = {"cases": len(cases), "pool_events_replayed_by_the_model": n_ev, "scheduler_decisions": n_dec,
-                                   "crashes": len(crashes)}
+                failures.append({"kind": "correspondence", "signature": "model/impl disagree (scheduled run: trace not accepted or state differs)",
+                                 "case": exact, "detail": {"first_difference_at": first,
+                                                            "impl": hh[max(0, first - 2):first + 3], "model": mm[max(0, first - 2):first + 3]}})
+        return failures, {"cases": len(cases), "pool_events_replayed_by_the_model": n_ev, "scheduler_decisions": n_dec, "crashes": len(crashes)}
+
+    def shrink_sched(self, failures, budget_s=150, limit=4):
+        """stage-2 shrinker: drop operations (the explicit schedule is kept and applied tolerantly: entries that are no longer
+        enabled are skipped, the seed policy continues), then shorten the explicit schedule, as long as a failure with the SAME
+        key (same oracle line up to client numbers / same crash signature / same kind of disagreement) persists; the result is
+        re-run once more so that the replay carries the exact schedule of the shrunk case"""
+        import time
+        t_end = time.time() + budget_s
+        order = {"oracle": 0, "crash": 1, "correspondence": 2}
+        done = set()
+        for f in sorted(failures, key=lambda f: order.get(f["kind"], 9)):
+            key = self.fail_key(f)
+            if key in done or len(done) >= limit or time.time() > t_end:
+                continue
+            done.add(key)
+
+            def find(c):
+                if time.time() > t_end:
+                    return None
+                fs, _ = self.eval_sched([c], 60)
+                for g in fs:
+                    if self.fail_key(g) == key:
+                        return g
+                return None
+            cur, best = f["case"], None
+            small = vlib.shrink_case(cur, lambda c: find(c) is not None, max_steps=200)
+            head, body = small.split("|", 1)
+            m = re.search(r"sch=([^,|]*)", head)
+            sch = [x for x in (m.group(1).split(".") if m else []) if x]
+            n = len(sch)
+            while n > 0 and time.time() < t_end:       # shorter and shorter prefixes of the schedule; the rest is decided by the seed policy
+                n //= 2
+                cand = re.sub(r"sch=[^,|]*", "sch=" + ".".join(sch[:n]), head, count=1) + "|" + body
+                if find(cand) is not None:
+                    sch = sch[:n]
+                else:
+                    break
+            cand = re.sub(r"sch=[^,|]*", "sch=" + ".".join(sch), head, count=1) + "|" + body
+            g = find(cand)
+            if g is None:
+                g = find(small)
+            if g is not None and g["case"] != f["case"]:
+                f["original_case"] = f["case"]
+                f["case"], f["detail"], f["signature"] = g["case"], g["detail"], g["signature"]
+
+    def extra_stage(self, ctx):
+        cases = [c for c in ctx["cases"] if c.startswith("sched,")]
+        cov = ctx.setdefault("extra_coverage", {})
+        if not cases:
+            cov["stage2_scheduler"] = ("not run: system/Thread.cpp of this tree has no MUSCLE_VERIF_HOOKS yield points "
+                                       "(the stage runs automatically when they are there)")
+            return
+        if not getattr(self, "_sched", None):
+            ctx["failures"].append({"kind": "build", "signature": "sched harness not built", "case": cases[0], "detail": ""})
+            return
+        failures, stats = self.eval_sched(cases, 1500 if ctx["tier"] == "quick" else 6000)
+        if failures and os.environ.get("VERIF_NO_SHRINK") != "1":
+            self.shrink_sched(failures)
+        ctx["failures"].extend(failures)
+        cov["stage2_scheduler"] = stats
 
     def gen_cases(self, rng, tier):
         out = []
@@ -290,6 +351,11 @@ class CHECK(vlib.Check):
             for body in SCHED_DIRECTED:
                 for _ in range(8 if tier == "quick" else 60):
                     out.append(("sched", body % rng.randint(1, 10 ** 9)))
+            for i in range(60 if tier == "quick" else 400):
+                # every mutex acquisition and every signal is a decision point (the pool thread may run between the steps of a
+                # critical section of the dispatcher): oracle and MASSERTs only, no trace acceptance
+                c = gen_sched_case(rng)
+                out.append(("sched-fine", c.replace(",seed=", ",fine=1,seed=", 1)))
             if getattr(self, "_sched", None) and not getattr(self, "_explore_emitted", False):
                 import subprocess
                 env = dict(os.environ); env.update(vlib.SAN_ENV)
@@ -327,6 +393,15 @@ class CHECK(vlib.Check):
         sig = re.sub(r" (handled|accepted)=\S*", "", sig)
         sig = re.sub(r"\bc\d+\b", "c#", sig)
         return (f["kind"], re.sub(r"^\d+ ", "", sig))
+
+    def signature(self, f):
+        # a crash caused by a MASSERT names the assertion (muscle logs it; the harnesses send the log to stderr)
+        if f.get("kind") == "crash":
+            d = f.get("detail") or {}
+            a = assertion_of(d.get("stderr", "") if isinstance(d, dict) else "")
+            if a and a not in f.get("signature", ""):
+                return "crash: " + a
+        return f.get("signature") or "disagree"
 
     def nontrivial(self, case):
         body = case.split("|", 1)[1]
